@@ -87,6 +87,9 @@ func genStep(p *Profile, cfg *Config) *rapid.Generator[[]Op] {
 			if rapid.IntRange(0, 3).Draw(t, "anycode") == 0 {
 				op.Out = rapid.IntRange(6, 24).Draw(t, "outcode") // any status code, plain errors
 			}
+			if (p.Name == "affinity" || p.Name == "fallback") && rapid.IntRange(0, 14).Draw(t, "discarded") == 0 {
+				op.Out = 25 // gRPC discarded the pick: Done(DoneInfo{}) without any RPC
+			}
 			if rapid.IntRange(0, 3).Draw(t, "rep") == 0 {
 				op.Rep = 1
 				op.Reply = rapid.SliceOfN(rapid.IntRange(0, 4), 0, 3).Draw(t, "reply")
